@@ -188,11 +188,13 @@ static int bad_aead_unwrap(fc_ctx* c, int j, err_t* exp)
 		return 0; /* key already replaced by another variant */
 	switch (j)
 	{
+	/* two variants are also applied together: their mutations of the tag use disjoint bits
+	   (octets 0..5 / octet 6 / octet 7) so that they can never cancel */
 	case 0: /* tag */
-		((octet*)c->a[4])[sk_below(&c->rng, 8)] ^= (octet)(1u << sk_below(&c->rng, 8));
+		((octet*)c->a[4])[sk_below(&c->rng, 6)] ^= (octet)(1u << sk_below(&c->rng, 8));
 		return 1;
 	case 1: /* ciphertext */
-		if (c->n[1] == 0) { ((octet*)c->a[4])[0] ^= 1; return 1; }
+		if (c->n[1] == 0) { ((octet*)c->a[4])[6] ^= 1; return 1; }
 		p = (octet*)c->a[1];
 		p[sk_below(&c->rng, (uint32_t)c->n[1])] ^= (octet)(1u << sk_below(&c->rng, 8));
 		return 1;
